@@ -5,6 +5,7 @@ chain index) on the real `batchie.sampling.sample`, with a counting model that r
 every call it receives (and, at the moment a generator is handed over, a copy of its
 bit-generator state), a counting variational model, and the real SparseDrugCombo.
 """
+import contextlib
 import copy
 import itertools
 import logging
@@ -17,6 +18,7 @@ env.setup()
 
 from ..core import exception_origin_in_repo, short_exc  # noqa: E402
 from ..screens import make_screen  # noqa: E402
+from ..logctx import package_logger_at_debug  # noqa: E402
 
 import batchie.sampling as S  # noqa: E402
 from batchie.core import BayesianModel, MCMCModel, Theta, ThetaHolder, VIModel  # noqa: E402
@@ -198,33 +200,12 @@ def first_outputs(state):
 
 
 # ------------------------------------------------------------------ single calls
-class _Sink(logging.Handler):
-    def emit(self, record):
-        record.getMessage()  # format the message as a real handler would, keep nothing
-
-
 def _call(model, n, p):
     holder = ThetaHolder(n_thetas=n)
-    lg = logging.getLogger("batchie")
-    saved = (lg.level, lg.propagate)
-    sink = None
-    if p.get("debug"):
-        # what `--verbose` does (batchie.log_config): the package logger at DEBUG
-        sink = _Sink()
-        lg.addHandler(sink)
-        lg.setLevel(logging.DEBUG)
-        lg.propagate = False
-        disabled = logging.root.manager.disable
-        logging.disable(logging.NOTSET)  # the harness silences logging globally (mc.env); not for this call
-    try:
+    # debug: what `--verbose` does (batchie.log_config): the package logger at DEBUG
+    with (package_logger_at_debug() if p.get("debug") else contextlib.nullcontext()):
         S.sample(model=model, results=holder, seed=p["seed"], n_chains=p["n_chains"], chain_index=p["index"],
                  n_burnin=p["b"], thin=p["t"], progress_bar=False)
-    finally:
-        if sink is not None:
-            logging.disable(disabled)
-            lg.removeHandler(sink)
-            lg.setLevel(saved[0])
-            lg.propagate = saved[1]
     return holder
 
 
